@@ -226,6 +226,7 @@ func propMain(args []string, o RunOpts, tier string) int {
 	defpure := map[string]bool{}
 	fnsUnderContract := []string{}
 	var outOfSubset []string
+	var deadReturns []string
 	solverTime := 0.0
 	bySolver := map[string]int{}
 	for i, r := range results {
@@ -236,6 +237,13 @@ func propMain(args []string, o RunOpts, tier string) int {
 				errs = append(errs, r.Fn+": "+r.Error)
 			}
 			continue
+		}
+		if r.Vacuous != "" {
+			errs = append(errs, "VACUOUS: "+r.Vacuous)
+			continue
+		}
+		for _, d := range r.DeadReturns {
+			deadReturns = append(deadReturns, r.Fn+":"+d)
 		}
 		if r.Contract {
 			fnsUnderContract = append(fnsUnderContract, r.Fn)
@@ -253,13 +261,14 @@ func propMain(args []string, o RunOpts, tier string) int {
 			if !ob.Strong {
 				continue // nil-dereference and type-assertion sites are reported but not claimed
 			}
-			if sels[i].sweep && !panicKinds[ob.Kind] {
-				continue
-			}
+			_ = sels[i].sweep // every strong kind counts, also in swept functions (type invariants, auto invariants)
 			claimed = append(claimed, ob)
 		}
 	}
 	claimed = append(claimed, lemmaObs...)
+	for _, inv := range ps.Inventory {
+		claimed = append(claimed, runInventory(inv, P, S)...)
+	}
 	for _, ob := range claimed {
 		solverTime += ob.Secs
 		if ob.Status == "unsat" {
@@ -397,6 +406,7 @@ func propMain(args []string, o RunOpts, tier string) int {
 		"known_findings_met":       knownHit,
 		"out_of_subset":            outOfSubset,
 		"contract_drift":           drift,
+		"unreachable_returns":      deadReturns,
 		"explanation":              ps.Explanation,
 	}
 	if hres != nil {
